@@ -197,4 +197,781 @@ pub(crate) mod __verif {
         kani::cover!(t[0] == b'$' && t[1] == b'1' && g1);
         kani::cover!(t[0] == b'a' && t[1] == b'$');
     }
+
+    // ---- C17: template expansion against the template specification (concrete templates, symbolic participation) ----
+    /// Template specification written from the property text (bytes; templates here are ASCII):
+    /// `$$` -> `$`; `$` followed by a maximal run of digits -> text of that group (0 = whole match; nothing if absent or
+    /// not participating); `${name}` -> text of the named group (nothing if unknown / not participating); an unterminated
+    /// `${` and every other character are literal. Returns the number of bytes written to `out`.
+    fn spec_expand(t: &[u8], text: &[u8], whole: (usize, usize), g1: Option<(usize, usize)>, g1_name: &[u8], out: &mut [u8; 24]) -> usize {
+        let mut n = 0;
+        let mut i = 0;
+        while i < t.len() {
+            let c = t[i];
+            i += 1;
+            if c != b'$' || i >= t.len() {
+                out[n] = c;
+                n += 1;
+                continue;
+            }
+            let d = t[i];
+            if d == b'$' {
+                i += 1;
+                out[n] = b'$';
+                n += 1;
+            } else if d.is_ascii_digit() {
+                let mut num: u64 = 0;
+                while i < t.len() && t[i].is_ascii_digit() {
+                    num = num.saturating_mul(10).saturating_add((t[i] - b'0') as u64);
+                    i += 1;
+                }
+                let r = if num == 0 { Some(whole) } else if num == 1 { g1 } else { None };
+                if let Some((a, b)) = r {
+                    let mut k = a;
+                    while k < b {
+                        out[n] = text[k];
+                        n += 1;
+                        k += 1;
+                    }
+                }
+            } else if d == b'{' {
+                let mut j = i + 1;
+                while j < t.len() && t[j] != b'}' {
+                    j += 1;
+                }
+                if j < t.len() {
+                    let name = &t[i + 1..j];
+                    i = j + 1;
+                    let mut same = !name.is_empty() && name.len() == g1_name.len();
+                    if same {
+                        let mut q = 0;
+                        while q < name.len() {
+                            if name[q] != g1_name[q] { same = false; }
+                            q += 1;
+                        }
+                    }
+                    if same {
+                        if let Some((a, b)) = g1 {
+                            let mut k = a;
+                            while k < b {
+                                out[n] = text[k];
+                                n += 1;
+                                k += 1;
+                            }
+                        }
+                    }
+                } else {
+                    // unterminated: `${` and the rest are literal
+                    out[n] = b'$';
+                    n += 1;
+                }
+            } else {
+                out[n] = b'$';
+                n += 1;
+            }
+        }
+        n
+    }
+
+    /// One template against the specification. `mb` selects a haystack whose match and group contain a 2-byte
+    /// character; whether group 1 (named `n`) participated is symbolic.
+    fn check_template(tmpl: &str, mb: bool) {
+        let re = regex_goal();
+        let text = if mb { "w\u{e9}yz" } else { "wxyz" };
+        let (whole, grp) = if mb { ((1, 4), (1, 3)) } else { ((1, 3), (2, 3)) };
+        let g1: bool = kani::any();
+        let names: Vec<Box<str>> = vec!["n".into()];
+        let m = Match { range: whole.0..whole.1, captures: vec![if g1 { Some(grp.0..grp.1) } else { None }], group_names: names.into_boxed_slice() };
+        let mut out = String::new();
+        re.expand_replacement(&m, text, tmpl, &mut out);
+        let mut exp = [0u8; 24];
+        let n = spec_expand(tmpl.as_bytes(), text.as_bytes(), whole, if g1 { Some(grp) } else { None }, b"n", &mut exp);
+        let ob = out.as_bytes();
+        assert!(ob.len() == n, "expansion length equals the template specification");
+        // (no assume here: several templates are checked in sequence and an empty expansion must not cut the path)
+        let k: usize = kani::any();
+        if k < n {
+            assert!(ob[k] == exp[k], "expansion content equals the template specification");
+        }
+        core::mem::forget(out);
+        core::mem::forget(m);
+    }
+
+    // BEGIN GENERATED j2c (contracts/gen/gen_api.py)
+    // @obligation name=j2c_literal props=C17 fn=api::Regex::expand_replacement,api::Match::group,api::Match::named_group kind=bounded bound="the 5 concrete templates '' 'a' 'ab}' 'é{' '}{a'; haystack 'wxyz'; group 1 (named n) participation symbolic" min_checks=50 w=2 timeout=900
+    // templates without `$`: expand_replacement(template) == spec_expand(template) (`$$` -> `$`, `$N` with the maximal digit run -> group
+    // text or nothing, `${name}` -> named group text or nothing, an unterminated `${` and everything else literal).
+    #[kani::proof]
+    #[kani::unwind(7)]
+    fn j2c_literal() {
+        check_template("", false);
+        check_template("a", false);
+        check_template("ab}", false);
+        check_template("é{", false);
+        check_template("}{a", false);
+        kani::cover!(true, "end of the harness is reachable (vacuity guard)");
+    }
+
+    // @obligation name=j2c_dollar props=C17 fn=api::Regex::expand_replacement,api::Match::group,api::Match::named_group kind=bounded bound="the 8 concrete templates '$' '$$' '$$$' 'a$' '$a' '$$1' '$}' '$é'; haystack 'wxyz'; group 1 (named n) participation symbolic" min_checks=50 w=2 timeout=900
+    // `$$`, trailing and stray `$`: expand_replacement(template) == spec_expand(template) (`$$` -> `$`, `$N` with the maximal digit run -> group
+    // text or nothing, `${name}` -> named group text or nothing, an unterminated `${` and everything else literal).
+    #[kani::proof]
+    #[kani::unwind(7)]
+    fn j2c_dollar() {
+        check_template("$", false);
+        check_template("$$", false);
+        check_template("$$$", false);
+        check_template("a$", false);
+        check_template("$a", false);
+        check_template("$$1", false);
+        check_template("$}", false);
+        check_template("$é", false);
+        kani::cover!(true, "end of the harness is reachable (vacuity guard)");
+    }
+
+    // @obligation name=j2c_numbered props=C17 fn=api::Regex::expand_replacement,api::Match::group,api::Match::named_group kind=bounded bound="the 9 concrete templates '$0' '$1' '$2' '$01' '$10' '$1a' '$1$1' 'a$0b' '$1$'; haystack 'wxyz'; group 1 (named n) participation symbolic" min_checks=50 w=2 timeout=900
+    // numbered references: expand_replacement(template) == spec_expand(template) (`$$` -> `$`, `$N` with the maximal digit run -> group
+    // text or nothing, `${name}` -> named group text or nothing, an unterminated `${` and everything else literal).
+    #[kani::proof]
+    #[kani::unwind(8)]
+    fn j2c_numbered() {
+        check_template("$0", false);
+        check_template("$1", false);
+        check_template("$2", false);
+        check_template("$01", false);
+        check_template("$10", false);
+        check_template("$1a", false);
+        check_template("$1$1", false);
+        check_template("a$0b", false);
+        check_template("$1$", false);
+        kani::cover!(true, "end of the harness is reachable (vacuity guard)");
+    }
+
+    // @obligation name=j2c_named props=C17 fn=api::Regex::expand_replacement,api::Match::group,api::Match::named_group kind=bounded bound="the 10 concrete templates '${n}' '${m}' '${}' '${n' '${' '${n}${n}' 'a${n}b' '${n}}' '${$n}' '${nn}'; haystack 'wxyz'; group 1 (named n) participation symbolic" min_checks=50 w=2 timeout=900
+    // named references: expand_replacement(template) == spec_expand(template) (`$$` -> `$`, `$N` with the maximal digit run -> group
+    // text or nothing, `${name}` -> named group text or nothing, an unterminated `${` and everything else literal).
+    #[kani::proof]
+    #[kani::unwind(12)]
+    fn j2c_named() {
+        check_template("${n}", false);
+        check_template("${m}", false);
+        check_template("${}", false);
+        check_template("${n", false);
+        check_template("${", false);
+        check_template("${n}${n}", false);
+        check_template("a${n}b", false);
+        check_template("${n}}", false);
+        check_template("${$n}", false);
+        check_template("${nn}", false);
+        kani::cover!(true, "end of the harness is reachable (vacuity guard)");
+    }
+
+    // @obligation name=j2c_multibyte props=C17 fn=api::Regex::expand_replacement,api::Match::group,api::Match::named_group kind=bounded bound="the 4 concrete templates '$0' '$1é' 'é${n}' '$$é$'; haystack 'w\u{e9}yz' (2-byte char inside the match); group 1 (named n) participation symbolic" min_checks=50 w=2 timeout=900
+    // multi-byte haystack and template: expand_replacement(template) == spec_expand(template) (`$$` -> `$`, `$N` with the maximal digit run -> group
+    // text or nothing, `${name}` -> named group text or nothing, an unterminated `${` and everything else literal).
+    #[kani::proof]
+    #[kani::unwind(10)]
+    fn j2c_multibyte() {
+        check_template("$0", true);
+        check_template("$1é", true);
+        check_template("é${n}", true);
+        check_template("$$é$", true);
+        kani::cover!(true, "end of the harness is reachable (vacuity guard)");
+    }
+
+    // @obligation name=j2c_digit_run_small props=C17 fn=api::Regex::expand_replacement,api::Match::group,api::Match::named_group kind=bounded bound="the 3 concrete templates '$000001' '$65535' '$0000000'; haystack 'wxyz'; group 1 (named n) participation symbolic" min_checks=50 w=2 timeout=900
+    // long digit runs below the group-count cap: expand_replacement(template) == spec_expand(template) (`$$` -> `$`, `$N` with the maximal digit run -> group
+    // text or nothing, `${name}` -> named group text or nothing, an unterminated `${` and everything else literal).
+    #[kani::proof]
+    #[kani::unwind(12)]
+    fn j2c_digit_run_small() {
+        check_template("$000001", false);
+        check_template("$65535", false);
+        check_template("$0000000", false);
+        kani::cover!(true, "end of the harness is reachable (vacuity guard)");
+    }
+
+    // @obligation name=j2c_digit_run_cap props=C17 fn=api::Regex::expand_replacement,api::Match::group,api::Match::named_group kind=bounded bound="the 4 concrete templates '$65536' '$655360' '$1234567' '$65536a'; haystack 'wxyz'; group 1 (named n) participation symbolic" min_checks=50 w=2 timeout=900
+    // digit runs whose value exceeds 65535 (F8, fixed): expand_replacement(template) == spec_expand(template) (`$$` -> `$`, `$N` with the maximal digit run -> group
+    // text or nothing, `${name}` -> named group text or nothing, an unterminated `${` and everything else literal).
+    #[kani::proof]
+    #[kani::unwind(12)]
+    fn j2c_digit_run_cap() {
+        check_template("$65536", false);
+        check_template("$655360", false);
+        check_template("$1234567", false);
+        check_template("$65536a", false);
+        kani::cover!(true, "end of the harness is reachable (vacuity guard)");
+    }
+
+    // @obligation name=j2c_digit_run_huge props=C17:t fn=api::Regex::expand_replacement,api::Match::group,api::Match::named_group kind=bounded bound="the 2 concrete templates '$99999999999999999999' '$18446744073709551616'; haystack 'wxyz'; group 1 (named n) participation symbolic" min_checks=50 w=3 timeout=1500
+    // digit runs beyond usize::MAX (F8, fixed): expand_replacement(template) == spec_expand(template) (`$$` -> `$`, `$N` with the maximal digit run -> group
+    // text or nothing, `${name}` -> named group text or nothing, an unterminated `${` and everything else literal).
+    #[kani::proof]
+    #[kani::unwind(25)]
+    fn j2c_digit_run_huge() {
+        check_template("$99999999999999999999", false);
+        check_template("$18446744073709551616", false);
+        kani::cover!(true, "end of the harness is reachable (vacuity guard)");
+    }
+
+    // @obligation name=j2c_all3_00 props=C17:t fn=api::Regex::expand_replacement,api::Match::group,api::Match::named_group kind=bounded bound="the 6 concrete templates '' '$' '1' '{' '}' 'n'; haystack 'wxyz'; group 1 (named n) participation symbolic" min_checks=50 w=2 timeout=900
+    // exhaustive: templates 0..5 of the 156 templates of length <= 3 over {$,1,{,},n}: expand_replacement(template) == spec_expand(template) (`$$` -> `$`, `$N` with the maximal digit run -> group
+    // text or nothing, `${name}` -> named group text or nothing, an unterminated `${` and everything else literal).
+    #[kani::proof]
+    #[kani::unwind(5)]
+    fn j2c_all3_00() {
+        check_template("", false);
+        check_template("$", false);
+        check_template("1", false);
+        check_template("{", false);
+        check_template("}", false);
+        check_template("n", false);
+        kani::cover!(true, "end of the harness is reachable (vacuity guard)");
+    }
+
+    // @obligation name=j2c_all3_01 props=C17:t fn=api::Regex::expand_replacement,api::Match::group,api::Match::named_group kind=bounded bound="the 6 concrete templates '$$' '$1' '${' '$}' '$n' '1$'; haystack 'wxyz'; group 1 (named n) participation symbolic" min_checks=50 w=2 timeout=900
+    // exhaustive: templates 6..11 of the 156 templates of length <= 3 over {$,1,{,},n}: expand_replacement(template) == spec_expand(template) (`$$` -> `$`, `$N` with the maximal digit run -> group
+    // text or nothing, `${name}` -> named group text or nothing, an unterminated `${` and everything else literal).
+    #[kani::proof]
+    #[kani::unwind(6)]
+    fn j2c_all3_01() {
+        check_template("$$", false);
+        check_template("$1", false);
+        check_template("${", false);
+        check_template("$}", false);
+        check_template("$n", false);
+        check_template("1$", false);
+        kani::cover!(true, "end of the harness is reachable (vacuity guard)");
+    }
+
+    // @obligation name=j2c_all3_02 props=C17:t fn=api::Regex::expand_replacement,api::Match::group,api::Match::named_group kind=bounded bound="the 6 concrete templates '11' '1{' '1}' '1n' '{$' '{1'; haystack 'wxyz'; group 1 (named n) participation symbolic" min_checks=50 w=2 timeout=900
+    // exhaustive: templates 12..17 of the 156 templates of length <= 3 over {$,1,{,},n}: expand_replacement(template) == spec_expand(template) (`$$` -> `$`, `$N` with the maximal digit run -> group
+    // text or nothing, `${name}` -> named group text or nothing, an unterminated `${` and everything else literal).
+    #[kani::proof]
+    #[kani::unwind(6)]
+    fn j2c_all3_02() {
+        check_template("11", false);
+        check_template("1{", false);
+        check_template("1}", false);
+        check_template("1n", false);
+        check_template("{$", false);
+        check_template("{1", false);
+        kani::cover!(true, "end of the harness is reachable (vacuity guard)");
+    }
+
+    // @obligation name=j2c_all3_03 props=C17:t fn=api::Regex::expand_replacement,api::Match::group,api::Match::named_group kind=bounded bound="the 6 concrete templates '{{' '{}' '{n' '}$' '}1' '}{'; haystack 'wxyz'; group 1 (named n) participation symbolic" min_checks=50 w=2 timeout=900
+    // exhaustive: templates 18..23 of the 156 templates of length <= 3 over {$,1,{,},n}: expand_replacement(template) == spec_expand(template) (`$$` -> `$`, `$N` with the maximal digit run -> group
+    // text or nothing, `${name}` -> named group text or nothing, an unterminated `${` and everything else literal).
+    #[kani::proof]
+    #[kani::unwind(6)]
+    fn j2c_all3_03() {
+        check_template("{{", false);
+        check_template("{}", false);
+        check_template("{n", false);
+        check_template("}$", false);
+        check_template("}1", false);
+        check_template("}{", false);
+        kani::cover!(true, "end of the harness is reachable (vacuity guard)");
+    }
+
+    // @obligation name=j2c_all3_04 props=C17:t fn=api::Regex::expand_replacement,api::Match::group,api::Match::named_group kind=bounded bound="the 6 concrete templates '}}' '}n' 'n$' 'n1' 'n{' 'n}'; haystack 'wxyz'; group 1 (named n) participation symbolic" min_checks=50 w=2 timeout=900
+    // exhaustive: templates 24..29 of the 156 templates of length <= 3 over {$,1,{,},n}: expand_replacement(template) == spec_expand(template) (`$$` -> `$`, `$N` with the maximal digit run -> group
+    // text or nothing, `${name}` -> named group text or nothing, an unterminated `${` and everything else literal).
+    #[kani::proof]
+    #[kani::unwind(6)]
+    fn j2c_all3_04() {
+        check_template("}}", false);
+        check_template("}n", false);
+        check_template("n$", false);
+        check_template("n1", false);
+        check_template("n{", false);
+        check_template("n}", false);
+        kani::cover!(true, "end of the harness is reachable (vacuity guard)");
+    }
+
+    // @obligation name=j2c_all3_05 props=C17:t fn=api::Regex::expand_replacement,api::Match::group,api::Match::named_group kind=bounded bound="the 6 concrete templates 'nn' '$$$' '$$1' '$${' '$$}' '$$n'; haystack 'wxyz'; group 1 (named n) participation symbolic" min_checks=50 w=2 timeout=900
+    // exhaustive: templates 30..35 of the 156 templates of length <= 3 over {$,1,{,},n}: expand_replacement(template) == spec_expand(template) (`$$` -> `$`, `$N` with the maximal digit run -> group
+    // text or nothing, `${name}` -> named group text or nothing, an unterminated `${` and everything else literal).
+    #[kani::proof]
+    #[kani::unwind(7)]
+    fn j2c_all3_05() {
+        check_template("nn", false);
+        check_template("$$$", false);
+        check_template("$$1", false);
+        check_template("$${", false);
+        check_template("$$}", false);
+        check_template("$$n", false);
+        kani::cover!(true, "end of the harness is reachable (vacuity guard)");
+    }
+
+    // @obligation name=j2c_all3_06 props=C17:t fn=api::Regex::expand_replacement,api::Match::group,api::Match::named_group kind=bounded bound="the 6 concrete templates '$1$' '$11' '$1{' '$1}' '$1n' '${$'; haystack 'wxyz'; group 1 (named n) participation symbolic" min_checks=50 w=2 timeout=900
+    // exhaustive: templates 36..41 of the 156 templates of length <= 3 over {$,1,{,},n}: expand_replacement(template) == spec_expand(template) (`$$` -> `$`, `$N` with the maximal digit run -> group
+    // text or nothing, `${name}` -> named group text or nothing, an unterminated `${` and everything else literal).
+    #[kani::proof]
+    #[kani::unwind(7)]
+    fn j2c_all3_06() {
+        check_template("$1$", false);
+        check_template("$11", false);
+        check_template("$1{", false);
+        check_template("$1}", false);
+        check_template("$1n", false);
+        check_template("${$", false);
+        kani::cover!(true, "end of the harness is reachable (vacuity guard)");
+    }
+
+    // @obligation name=j2c_all3_07 props=C17:t fn=api::Regex::expand_replacement,api::Match::group,api::Match::named_group kind=bounded bound="the 6 concrete templates '${1' '${{' '${}' '${n' '$}$' '$}1'; haystack 'wxyz'; group 1 (named n) participation symbolic" min_checks=50 w=2 timeout=900
+    // exhaustive: templates 42..47 of the 156 templates of length <= 3 over {$,1,{,},n}: expand_replacement(template) == spec_expand(template) (`$$` -> `$`, `$N` with the maximal digit run -> group
+    // text or nothing, `${name}` -> named group text or nothing, an unterminated `${` and everything else literal).
+    #[kani::proof]
+    #[kani::unwind(7)]
+    fn j2c_all3_07() {
+        check_template("${1", false);
+        check_template("${{", false);
+        check_template("${}", false);
+        check_template("${n", false);
+        check_template("$}$", false);
+        check_template("$}1", false);
+        kani::cover!(true, "end of the harness is reachable (vacuity guard)");
+    }
+
+    // @obligation name=j2c_all3_08 props=C17:t fn=api::Regex::expand_replacement,api::Match::group,api::Match::named_group kind=bounded bound="the 6 concrete templates '$}{' '$}}' '$}n' '$n$' '$n1' '$n{'; haystack 'wxyz'; group 1 (named n) participation symbolic" min_checks=50 w=2 timeout=900
+    // exhaustive: templates 48..53 of the 156 templates of length <= 3 over {$,1,{,},n}: expand_replacement(template) == spec_expand(template) (`$$` -> `$`, `$N` with the maximal digit run -> group
+    // text or nothing, `${name}` -> named group text or nothing, an unterminated `${` and everything else literal).
+    #[kani::proof]
+    #[kani::unwind(7)]
+    fn j2c_all3_08() {
+        check_template("$}{", false);
+        check_template("$}}", false);
+        check_template("$}n", false);
+        check_template("$n$", false);
+        check_template("$n1", false);
+        check_template("$n{", false);
+        kani::cover!(true, "end of the harness is reachable (vacuity guard)");
+    }
+
+    // @obligation name=j2c_all3_09 props=C17:t fn=api::Regex::expand_replacement,api::Match::group,api::Match::named_group kind=bounded bound="the 6 concrete templates '$n}' '$nn' '1$$' '1$1' '1${' '1$}'; haystack 'wxyz'; group 1 (named n) participation symbolic" min_checks=50 w=2 timeout=900
+    // exhaustive: templates 54..59 of the 156 templates of length <= 3 over {$,1,{,},n}: expand_replacement(template) == spec_expand(template) (`$$` -> `$`, `$N` with the maximal digit run -> group
+    // text or nothing, `${name}` -> named group text or nothing, an unterminated `${` and everything else literal).
+    #[kani::proof]
+    #[kani::unwind(7)]
+    fn j2c_all3_09() {
+        check_template("$n}", false);
+        check_template("$nn", false);
+        check_template("1$$", false);
+        check_template("1$1", false);
+        check_template("1${", false);
+        check_template("1$}", false);
+        kani::cover!(true, "end of the harness is reachable (vacuity guard)");
+    }
+
+    // @obligation name=j2c_all3_10 props=C17:t fn=api::Regex::expand_replacement,api::Match::group,api::Match::named_group kind=bounded bound="the 6 concrete templates '1$n' '11$' '111' '11{' '11}' '11n'; haystack 'wxyz'; group 1 (named n) participation symbolic" min_checks=50 w=2 timeout=900
+    // exhaustive: templates 60..65 of the 156 templates of length <= 3 over {$,1,{,},n}: expand_replacement(template) == spec_expand(template) (`$$` -> `$`, `$N` with the maximal digit run -> group
+    // text or nothing, `${name}` -> named group text or nothing, an unterminated `${` and everything else literal).
+    #[kani::proof]
+    #[kani::unwind(7)]
+    fn j2c_all3_10() {
+        check_template("1$n", false);
+        check_template("11$", false);
+        check_template("111", false);
+        check_template("11{", false);
+        check_template("11}", false);
+        check_template("11n", false);
+        kani::cover!(true, "end of the harness is reachable (vacuity guard)");
+    }
+
+    // @obligation name=j2c_all3_11 props=C17:t fn=api::Regex::expand_replacement,api::Match::group,api::Match::named_group kind=bounded bound="the 6 concrete templates '1{$' '1{1' '1{{' '1{}' '1{n' '1}$'; haystack 'wxyz'; group 1 (named n) participation symbolic" min_checks=50 w=2 timeout=900
+    // exhaustive: templates 66..71 of the 156 templates of length <= 3 over {$,1,{,},n}: expand_replacement(template) == spec_expand(template) (`$$` -> `$`, `$N` with the maximal digit run -> group
+    // text or nothing, `${name}` -> named group text or nothing, an unterminated `${` and everything else literal).
+    #[kani::proof]
+    #[kani::unwind(7)]
+    fn j2c_all3_11() {
+        check_template("1{$", false);
+        check_template("1{1", false);
+        check_template("1{{", false);
+        check_template("1{}", false);
+        check_template("1{n", false);
+        check_template("1}$", false);
+        kani::cover!(true, "end of the harness is reachable (vacuity guard)");
+    }
+
+    // @obligation name=j2c_all3_12 props=C17:t fn=api::Regex::expand_replacement,api::Match::group,api::Match::named_group kind=bounded bound="the 6 concrete templates '1}1' '1}{' '1}}' '1}n' '1n$' '1n1'; haystack 'wxyz'; group 1 (named n) participation symbolic" min_checks=50 w=2 timeout=900
+    // exhaustive: templates 72..77 of the 156 templates of length <= 3 over {$,1,{,},n}: expand_replacement(template) == spec_expand(template) (`$$` -> `$`, `$N` with the maximal digit run -> group
+    // text or nothing, `${name}` -> named group text or nothing, an unterminated `${` and everything else literal).
+    #[kani::proof]
+    #[kani::unwind(7)]
+    fn j2c_all3_12() {
+        check_template("1}1", false);
+        check_template("1}{", false);
+        check_template("1}}", false);
+        check_template("1}n", false);
+        check_template("1n$", false);
+        check_template("1n1", false);
+        kani::cover!(true, "end of the harness is reachable (vacuity guard)");
+    }
+
+    // @obligation name=j2c_all3_13 props=C17:t fn=api::Regex::expand_replacement,api::Match::group,api::Match::named_group kind=bounded bound="the 6 concrete templates '1n{' '1n}' '1nn' '{$$' '{$1' '{${'; haystack 'wxyz'; group 1 (named n) participation symbolic" min_checks=50 w=2 timeout=900
+    // exhaustive: templates 78..83 of the 156 templates of length <= 3 over {$,1,{,},n}: expand_replacement(template) == spec_expand(template) (`$$` -> `$`, `$N` with the maximal digit run -> group
+    // text or nothing, `${name}` -> named group text or nothing, an unterminated `${` and everything else literal).
+    #[kani::proof]
+    #[kani::unwind(7)]
+    fn j2c_all3_13() {
+        check_template("1n{", false);
+        check_template("1n}", false);
+        check_template("1nn", false);
+        check_template("{$$", false);
+        check_template("{$1", false);
+        check_template("{${", false);
+        kani::cover!(true, "end of the harness is reachable (vacuity guard)");
+    }
+
+    // @obligation name=j2c_all3_14 props=C17:t fn=api::Regex::expand_replacement,api::Match::group,api::Match::named_group kind=bounded bound="the 6 concrete templates '{$}' '{$n' '{1$' '{11' '{1{' '{1}'; haystack 'wxyz'; group 1 (named n) participation symbolic" min_checks=50 w=2 timeout=900
+    // exhaustive: templates 84..89 of the 156 templates of length <= 3 over {$,1,{,},n}: expand_replacement(template) == spec_expand(template) (`$$` -> `$`, `$N` with the maximal digit run -> group
+    // text or nothing, `${name}` -> named group text or nothing, an unterminated `${` and everything else literal).
+    #[kani::proof]
+    #[kani::unwind(7)]
+    fn j2c_all3_14() {
+        check_template("{$}", false);
+        check_template("{$n", false);
+        check_template("{1$", false);
+        check_template("{11", false);
+        check_template("{1{", false);
+        check_template("{1}", false);
+        kani::cover!(true, "end of the harness is reachable (vacuity guard)");
+    }
+
+    // @obligation name=j2c_all3_15 props=C17:t fn=api::Regex::expand_replacement,api::Match::group,api::Match::named_group kind=bounded bound="the 6 concrete templates '{1n' '{{$' '{{1' '{{{' '{{}' '{{n'; haystack 'wxyz'; group 1 (named n) participation symbolic" min_checks=50 w=2 timeout=900
+    // exhaustive: templates 90..95 of the 156 templates of length <= 3 over {$,1,{,},n}: expand_replacement(template) == spec_expand(template) (`$$` -> `$`, `$N` with the maximal digit run -> group
+    // text or nothing, `${name}` -> named group text or nothing, an unterminated `${` and everything else literal).
+    #[kani::proof]
+    #[kani::unwind(7)]
+    fn j2c_all3_15() {
+        check_template("{1n", false);
+        check_template("{{$", false);
+        check_template("{{1", false);
+        check_template("{{{", false);
+        check_template("{{}", false);
+        check_template("{{n", false);
+        kani::cover!(true, "end of the harness is reachable (vacuity guard)");
+    }
+
+    // @obligation name=j2c_all3_16 props=C17:t fn=api::Regex::expand_replacement,api::Match::group,api::Match::named_group kind=bounded bound="the 6 concrete templates '{}$' '{}1' '{}{' '{}}' '{}n' '{n$'; haystack 'wxyz'; group 1 (named n) participation symbolic" min_checks=50 w=2 timeout=900
+    // exhaustive: templates 96..101 of the 156 templates of length <= 3 over {$,1,{,},n}: expand_replacement(template) == spec_expand(template) (`$$` -> `$`, `$N` with the maximal digit run -> group
+    // text or nothing, `${name}` -> named group text or nothing, an unterminated `${` and everything else literal).
+    #[kani::proof]
+    #[kani::unwind(7)]
+    fn j2c_all3_16() {
+        check_template("{}$", false);
+        check_template("{}1", false);
+        check_template("{}{", false);
+        check_template("{}}", false);
+        check_template("{}n", false);
+        check_template("{n$", false);
+        kani::cover!(true, "end of the harness is reachable (vacuity guard)");
+    }
+
+    // @obligation name=j2c_all3_17 props=C17:t fn=api::Regex::expand_replacement,api::Match::group,api::Match::named_group kind=bounded bound="the 6 concrete templates '{n1' '{n{' '{n}' '{nn' '}$$' '}$1'; haystack 'wxyz'; group 1 (named n) participation symbolic" min_checks=50 w=2 timeout=900
+    // exhaustive: templates 102..107 of the 156 templates of length <= 3 over {$,1,{,},n}: expand_replacement(template) == spec_expand(template) (`$$` -> `$`, `$N` with the maximal digit run -> group
+    // text or nothing, `${name}` -> named group text or nothing, an unterminated `${` and everything else literal).
+    #[kani::proof]
+    #[kani::unwind(7)]
+    fn j2c_all3_17() {
+        check_template("{n1", false);
+        check_template("{n{", false);
+        check_template("{n}", false);
+        check_template("{nn", false);
+        check_template("}$$", false);
+        check_template("}$1", false);
+        kani::cover!(true, "end of the harness is reachable (vacuity guard)");
+    }
+
+    // @obligation name=j2c_all3_18 props=C17:t fn=api::Regex::expand_replacement,api::Match::group,api::Match::named_group kind=bounded bound="the 6 concrete templates '}${' '}$}' '}$n' '}1$' '}11' '}1{'; haystack 'wxyz'; group 1 (named n) participation symbolic" min_checks=50 w=2 timeout=900
+    // exhaustive: templates 108..113 of the 156 templates of length <= 3 over {$,1,{,},n}: expand_replacement(template) == spec_expand(template) (`$$` -> `$`, `$N` with the maximal digit run -> group
+    // text or nothing, `${name}` -> named group text or nothing, an unterminated `${` and everything else literal).
+    #[kani::proof]
+    #[kani::unwind(7)]
+    fn j2c_all3_18() {
+        check_template("}${", false);
+        check_template("}$}", false);
+        check_template("}$n", false);
+        check_template("}1$", false);
+        check_template("}11", false);
+        check_template("}1{", false);
+        kani::cover!(true, "end of the harness is reachable (vacuity guard)");
+    }
+
+    // @obligation name=j2c_all3_19 props=C17:t fn=api::Regex::expand_replacement,api::Match::group,api::Match::named_group kind=bounded bound="the 6 concrete templates '}1}' '}1n' '}{$' '}{1' '}{{' '}{}'; haystack 'wxyz'; group 1 (named n) participation symbolic" min_checks=50 w=2 timeout=900
+    // exhaustive: templates 114..119 of the 156 templates of length <= 3 over {$,1,{,},n}: expand_replacement(template) == spec_expand(template) (`$$` -> `$`, `$N` with the maximal digit run -> group
+    // text or nothing, `${name}` -> named group text or nothing, an unterminated `${` and everything else literal).
+    #[kani::proof]
+    #[kani::unwind(7)]
+    fn j2c_all3_19() {
+        check_template("}1}", false);
+        check_template("}1n", false);
+        check_template("}{$", false);
+        check_template("}{1", false);
+        check_template("}{{", false);
+        check_template("}{}", false);
+        kani::cover!(true, "end of the harness is reachable (vacuity guard)");
+    }
+
+    // @obligation name=j2c_all3_20 props=C17:t fn=api::Regex::expand_replacement,api::Match::group,api::Match::named_group kind=bounded bound="the 6 concrete templates '}{n' '}}$' '}}1' '}}{' '}}}' '}}n'; haystack 'wxyz'; group 1 (named n) participation symbolic" min_checks=50 w=2 timeout=900
+    // exhaustive: templates 120..125 of the 156 templates of length <= 3 over {$,1,{,},n}: expand_replacement(template) == spec_expand(template) (`$$` -> `$`, `$N` with the maximal digit run -> group
+    // text or nothing, `${name}` -> named group text or nothing, an unterminated `${` and everything else literal).
+    #[kani::proof]
+    #[kani::unwind(7)]
+    fn j2c_all3_20() {
+        check_template("}{n", false);
+        check_template("}}$", false);
+        check_template("}}1", false);
+        check_template("}}{", false);
+        check_template("}}}", false);
+        check_template("}}n", false);
+        kani::cover!(true, "end of the harness is reachable (vacuity guard)");
+    }
+
+    // @obligation name=j2c_all3_21 props=C17:t fn=api::Regex::expand_replacement,api::Match::group,api::Match::named_group kind=bounded bound="the 6 concrete templates '}n$' '}n1' '}n{' '}n}' '}nn' 'n$$'; haystack 'wxyz'; group 1 (named n) participation symbolic" min_checks=50 w=2 timeout=900
+    // exhaustive: templates 126..131 of the 156 templates of length <= 3 over {$,1,{,},n}: expand_replacement(template) == spec_expand(template) (`$$` -> `$`, `$N` with the maximal digit run -> group
+    // text or nothing, `${name}` -> named group text or nothing, an unterminated `${` and everything else literal).
+    #[kani::proof]
+    #[kani::unwind(7)]
+    fn j2c_all3_21() {
+        check_template("}n$", false);
+        check_template("}n1", false);
+        check_template("}n{", false);
+        check_template("}n}", false);
+        check_template("}nn", false);
+        check_template("n$$", false);
+        kani::cover!(true, "end of the harness is reachable (vacuity guard)");
+    }
+
+    // @obligation name=j2c_all3_22 props=C17:t fn=api::Regex::expand_replacement,api::Match::group,api::Match::named_group kind=bounded bound="the 6 concrete templates 'n$1' 'n${' 'n$}' 'n$n' 'n1$' 'n11'; haystack 'wxyz'; group 1 (named n) participation symbolic" min_checks=50 w=2 timeout=900
+    // exhaustive: templates 132..137 of the 156 templates of length <= 3 over {$,1,{,},n}: expand_replacement(template) == spec_expand(template) (`$$` -> `$`, `$N` with the maximal digit run -> group
+    // text or nothing, `${name}` -> named group text or nothing, an unterminated `${` and everything else literal).
+    #[kani::proof]
+    #[kani::unwind(7)]
+    fn j2c_all3_22() {
+        check_template("n$1", false);
+        check_template("n${", false);
+        check_template("n$}", false);
+        check_template("n$n", false);
+        check_template("n1$", false);
+        check_template("n11", false);
+        kani::cover!(true, "end of the harness is reachable (vacuity guard)");
+    }
+
+    // @obligation name=j2c_all3_23 props=C17:t fn=api::Regex::expand_replacement,api::Match::group,api::Match::named_group kind=bounded bound="the 6 concrete templates 'n1{' 'n1}' 'n1n' 'n{$' 'n{1' 'n{{'; haystack 'wxyz'; group 1 (named n) participation symbolic" min_checks=50 w=2 timeout=900
+    // exhaustive: templates 138..143 of the 156 templates of length <= 3 over {$,1,{,},n}: expand_replacement(template) == spec_expand(template) (`$$` -> `$`, `$N` with the maximal digit run -> group
+    // text or nothing, `${name}` -> named group text or nothing, an unterminated `${` and everything else literal).
+    #[kani::proof]
+    #[kani::unwind(7)]
+    fn j2c_all3_23() {
+        check_template("n1{", false);
+        check_template("n1}", false);
+        check_template("n1n", false);
+        check_template("n{$", false);
+        check_template("n{1", false);
+        check_template("n{{", false);
+        kani::cover!(true, "end of the harness is reachable (vacuity guard)");
+    }
+
+    // @obligation name=j2c_all3_24 props=C17:t fn=api::Regex::expand_replacement,api::Match::group,api::Match::named_group kind=bounded bound="the 6 concrete templates 'n{}' 'n{n' 'n}$' 'n}1' 'n}{' 'n}}'; haystack 'wxyz'; group 1 (named n) participation symbolic" min_checks=50 w=2 timeout=900
+    // exhaustive: templates 144..149 of the 156 templates of length <= 3 over {$,1,{,},n}: expand_replacement(template) == spec_expand(template) (`$$` -> `$`, `$N` with the maximal digit run -> group
+    // text or nothing, `${name}` -> named group text or nothing, an unterminated `${` and everything else literal).
+    #[kani::proof]
+    #[kani::unwind(7)]
+    fn j2c_all3_24() {
+        check_template("n{}", false);
+        check_template("n{n", false);
+        check_template("n}$", false);
+        check_template("n}1", false);
+        check_template("n}{", false);
+        check_template("n}}", false);
+        kani::cover!(true, "end of the harness is reachable (vacuity guard)");
+    }
+
+    // @obligation name=j2c_all3_25 props=C17:t fn=api::Regex::expand_replacement,api::Match::group,api::Match::named_group kind=bounded bound="the 6 concrete templates 'n}n' 'nn$' 'nn1' 'nn{' 'nn}' 'nnn'; haystack 'wxyz'; group 1 (named n) participation symbolic" min_checks=50 w=2 timeout=900
+    // exhaustive: templates 150..155 of the 156 templates of length <= 3 over {$,1,{,},n}: expand_replacement(template) == spec_expand(template) (`$$` -> `$`, `$N` with the maximal digit run -> group
+    // text or nothing, `${name}` -> named group text or nothing, an unterminated `${` and everything else literal).
+    #[kani::proof]
+    #[kani::unwind(7)]
+    fn j2c_all3_25() {
+        check_template("n}n", false);
+        check_template("nn$", false);
+        check_template("nn1", false);
+        check_template("nn{", false);
+        check_template("nn}", false);
+        check_template("nnn", false);
+        kani::cover!(true, "end of the harness is reachable (vacuity guard)");
+    }
+
+    // END GENERATED j2c
+
+    fn sym_template<const N: usize>(buf: &mut [u8; N]) {
+        let alpha = [b'$', b'0', b'1', b'7', b'{', b'}', b'n', b'a'];
+        let mut i = 0;
+        while i < N {
+            let k: usize = kani::any();
+            kani::assume(k < 8);
+            buf[i] = alpha[k];
+            i += 1;
+        }
+    }
+
+    // @obligation name=j2s_expand_sym2 props= fn=api::Regex::expand_replacement kind=bounded bound="templates of 2 symbolic characters over {$,0,1,7,{,},n,a}" min_checks=50 w=2 timeout=900
+    // (disabled: does not close in 900 s - Peekable<Chars> over symbolic bytes) expansion == template specification
+    #[kani::proof]
+    #[kani::unwind(12)]
+    fn j2s_expand_sym2() {
+        let mut b = [0u8; 2];
+        sym_template(&mut b);
+        check_template(unsafe { core::str::from_utf8_unchecked(&b) }, false);
+    }
+
+    // @obligation name=j2s_expand_sym3 props= fn=api::Regex::expand_replacement kind=bounded bound="templates of 3 symbolic characters over {$,0,1,7,{,},n,a}" min_checks=50 w=2 timeout=900
+    // (disabled: does not close in 900 s) expansion == template specification
+    #[kani::proof]
+    #[kani::unwind(12)]
+    fn j2s_expand_sym3() {
+        let mut b = [0u8; 3];
+        sym_template(&mut b);
+        check_template(unsafe { core::str::from_utf8_unchecked(&b) }, false);
+    }
+
+    // ---- C17: the splice loop of replace_all_with / replace_with over the match sequence ----
+    use crate::classicalbacktrack::__verif::{init_oracle, next_boundary, ORACLE};
+
+    fn first_match_from(cur: usize, len: usize, bnd: &[bool; 5]) -> Option<(usize, usize)> {
+        let mut p = cur;
+        loop {
+            if let Some(e) = unsafe { ORACLE[p] } { return Some((p, e)); }
+            match next_boundary(p, len, bnd) { Some(q) => p = q, None => return None }
+        }
+    }
+
+    /// Splice specification: the haystack with every match of the unfold sequence (first match at or after the cursor;
+    /// cursor := end, or one character further after an empty match - the contract of Matches proved by f3_*) replaced by
+    /// `#`, everything else copied. `first_only` stops after one match (replace_with).
+    fn spec_splice(text: &[u8], len: usize, bnd: &[bool; 5], first_only: bool, out: &mut [u8; 16]) -> usize {
+        let mut n = 0;
+        let mut last = 0;
+        let mut cur = Some(0usize);
+        while let Some(c) = cur {
+            match first_match_from(c, len, bnd) {
+                None => break,
+                Some((s, e)) => {
+                    let mut k = last;
+                    while k < s { out[n] = text[k]; n += 1; k += 1; }
+                    out[n] = b'#';
+                    n += 1;
+                    last = e;
+                    cur = if first_only { None } else if e != s { Some(e) } else { next_boundary(e, len, bnd) };
+                }
+            }
+        }
+        let mut k = last;
+        while k < len { out[n] = text[k]; n += 1; k += 1; }
+        n
+    }
+
+    fn j3_check(two: bool, first_only: bool) {
+        let re = regex_goal();
+        let text: &'static str = if two { "a\u{e9}" } else { "ab" };
+        let (len, bnd) = j3_hay(two);
+        let out = if first_only { re.replace_with(text, |_m| String::from("#")) } else { re.replace_all_with(text, |_m| String::from("#")) };
+        let mut exp = [0u8; 16];
+        let n = spec_splice(text.as_bytes(), len, &bnd, first_only, &mut exp);
+        let ob = out.as_bytes();
+        assert!(ob.len() == n, "spliced length equals the splice specification");
+        let k: usize = kani::any();
+        if k < n {
+            assert!(ob[k] == exp[k], "spliced content equals the splice specification");
+        }
+        core::mem::forget(out);
+    }
+
+    fn j3_hay(two: bool) -> (usize, [bool; 5]) {
+        if two { (3usize, [true, true, false, true, false]) } else { (2usize, [true, true, true, false, false]) }
+    }
+
+    /// symbolic oracle (replace_with: one search)
+    fn j3_body(two: bool, first_only: bool) {
+        let (len, bnd) = j3_hay(two);
+        init_oracle(len, &bnd);
+        j3_check(two, first_only);
+        kani::cover!(unsafe { ORACLE[0].is_none() && ORACLE[1].is_some() }, "a match after a gap");
+    }
+
+    /// concrete oracle table: the match (end offset) reported at each of the three boundaries b0 < b1 < b2 of the haystack
+    fn j3_table(two: bool, o0: Option<usize>, o1: Option<usize>, o2: Option<usize>) {
+        let (b1, b2) = if two { (1, 3) } else { (1, 2) };
+        unsafe {
+            ORACLE = [None; 5];
+            ORACLE[0] = o0;
+            ORACLE[b1] = o1;
+            ORACLE[b2] = o2;
+            crate::classicalbacktrack::__verif::LOG_N = 0;
+        }
+        j3_check(two, false);
+    }
+
+    // @obligation name=j3_replace_all_with_table props= fn=api::Regex::replace_all_with,api::Regex::find_iter,exec::Matches::next kind=bounded bound="haystack \"ab\", one concrete oracle table" min_checks=300 w=2 timeout=600 ignore_free_model=1
+    // (disabled: does not close - even a single concrete match table times out at 400 s, the symbolic one at 1500 s: the
+    // `for m in find_iter` loop re-enters the search driver under a merged cursor) replace_all_with == spec_splice.
+    #[kani::proof]
+    #[kani::unwind(8)]
+    #[kani::stub(crate::classicalbacktrack::MatchAttempter::try_at_pos, crate::classicalbacktrack::__verif::oracle_try_at_pos)]
+    #[kani::stub(crate::classicalbacktrack::BacktrackExecutor::successful_match, crate::classicalbacktrack::__verif::sm_stub)]
+    fn j3_replace_all_with_table() {
+        j3_table(false, Some(1), None, Some(2));
+    }
+
+
+    // @obligation name=j3_replace_with_first props=C17 fn=api::Regex::replace_with,api::Regex::find kind=bounded bound="haystack \"a\u{e9}\"; every oracle; closure result \"#\"" min_checks=300 w=3 timeout=1500 ignore_free_model=1
+    // replace_with replaces exactly the first match and preserves the rest; no match -> unchanged.
+    #[kani::proof]
+    #[kani::unwind(8)]
+    #[kani::stub(crate::classicalbacktrack::MatchAttempter::try_at_pos, crate::classicalbacktrack::__verif::oracle_try_at_pos)]
+    #[kani::stub(crate::classicalbacktrack::BacktrackExecutor::successful_match, crate::classicalbacktrack::__verif::sm_stub)]
+    fn j3_replace_with_first() {
+        j3_body(true, true);
+    }
+
+    // @obligation name=j3_replace_template_first props=C17 fn=api::Regex::replace,api::Regex::find,api::Regex::expand_replacement kind=bounded bound="haystack \"a\u{e9}\"; every oracle (every possible first match); template \"[$0]\"" min_checks=300 w=3 timeout=1500 ignore_free_model=1
+    // replace == haystack[..s] ++ "[" ++ haystack[s..e] ++ "]" ++ haystack[e..] for the first match s..e, and the haystack
+    // itself when there is no match (template expansion spliced at the match, everything else preserved byte for byte).
+    #[kani::proof]
+    #[kani::unwind(8)]
+    #[kani::stub(crate::classicalbacktrack::MatchAttempter::try_at_pos, crate::classicalbacktrack::__verif::oracle_try_at_pos)]
+    #[kani::stub(crate::classicalbacktrack::BacktrackExecutor::successful_match, crate::classicalbacktrack::__verif::sm_stub)]
+    fn j3_replace_template_first() {
+        let re = regex_goal();
+        let text: &'static str = "a\u{e9}";
+        let (len, bnd) = j3_hay(true);
+        init_oracle(len, &bnd);
+        let out = re.replace(text, "[$0]");
+        let tb = text.as_bytes();
+        let mut exp = [0u8; 16];
+        let mut n = 0;
+        match first_match_from(0, len, &bnd) {
+            None => { while n < len { exp[n] = tb[n]; n += 1; } }
+            Some((s, e)) => {
+                let mut k = 0;
+                while k < s { exp[n] = tb[k]; n += 1; k += 1; }
+                exp[n] = b'['; n += 1;
+                while k < e { exp[n] = tb[k]; n += 1; k += 1; }
+                exp[n] = b']'; n += 1;
+                while k < len { exp[n] = tb[k]; n += 1; k += 1; }
+            }
+        }
+        let ob = out.as_bytes();
+        assert!(ob.len() == n, "replace: length equals the splice-and-expand specification");
+        let k: usize = kani::any();
+        if k < n {
+            assert!(ob[k] == exp[k], "replace: content equals the splice-and-expand specification");
+        }
+        core::mem::forget(out);
+        kani::cover!(n == len, "no match: haystack unchanged");
+        kani::cover!(n == len + 2 && exp[1] == b'[', "match after a gap");
+    }
 }
